@@ -60,6 +60,25 @@ Proof.
     destruct (Nat.eqb (length c) (length tcol)) eqn:El; [|discriminate]. cbn [negb] in E. injection E as <-.
     destruct (IH r eq_refl) as (H1 & H2). split; [cbn; f_equal; exact H1|]. constructor; [cbn; apply Nat.eqb_eq; exact El|exact H2].
 Qed.
+(** the method: the files written are, in order, the exports of a prefix of the elements -- all of them when nothing raised *)
+Theorem export_all_files times (els : list (@erec A)) us :
+  let r := export_all times els us in
+  exists done, map fst (fst r) = map (@er_name A) done /\
+    Forall2 (fun f e => fst f = er_name e /\ export times e us = Ok (snd f)) (fst r) done /\
+    match snd r with
+    | None => done = els
+    | Some x => exists e rest, els = (done ++ e :: rest)%list /\ export times e us = Err x
+    end.
+Proof.
+  induction els as [|e els IH]; cbn.
+  - exists []. repeat split; constructor.
+  - destruct (export times e us) as [cols|x] eqn:E; cbn.
+    + destruct IH as (dn & H1 & H2 & H3). exists (e :: dn). cbn. split; [f_equal; exact H1|]. split; [constructor; [split; [reflexivity|exact E]|exact H2]|].
+      destruct (snd (export_all times els us)) as [x|].
+      * destruct H3 as (e' & rest & -> & H4). exists e', rest. split; [reflexivity|exact H4].
+      * f_equal; exact H3.
+    + exists []. repeat split; try constructor. exists e, els. split; [reflexivity|exact E].
+Qed.
 End Generic.
 
 (** ** over the reals: on the recorded instants the interpolation returns the recorded (converted) sample, between two instants the chord *)
